@@ -68,6 +68,14 @@ fn main() {
             let tier = Tier::parse(&args[3]).unwrap_or_else(|| usage());
             dispatch!(args[2].as_str(), orchestrate(tier))
         }
+        "gen" => {
+            if args.len() < 5 {
+                usage();
+            }
+            let tier = Tier::parse(&args[3]).unwrap_or_else(|| usage());
+            let i: u64 = args[4].parse().unwrap_or(0);
+            dispatch!(args[2].as_str(), gen_main(tier, i))
+        }
         "worker" => {
             let id = args[2].clone();
             dispatch!(id.as_str(), worker_main(&args[3..]))
